@@ -418,10 +418,13 @@ class Segment(object):
         while len(self.elements) <= ele_idx:
             # insert blank values before our value if needed
             self.elements.append(Composite('', self.subele_term))
-        if self.seg_id == 'ISA' and ele_idx == 15:
-            #Special handling for ISA segment
-            #guarantee subele_term will not be matched
-            self.elements[ele_idx] = Composite(val, self.ele_term)
+        if self.seg_id == 'ISA':
+            #Special handling for ISA segment: its elements are never
+            #composites, so store the value unsplit whatever separators
+            #the segment was parsed with
+            comp = Composite('', self.subele_term)
+            comp.elements = [Element(val)]
+            self.elements[ele_idx] = comp
             return
         if comp_idx is None:
             self.elements[ele_idx] = Composite(val, self.subele_term)
